@@ -827,6 +827,19 @@ func randomBatch(r *rand.Rand, id int, seed int64, maxInv int, dup bool) *Batch 
 		b.Invs = append(b.Invs[:at], append([]string{name}, b.Invs[at:]...)...)
 	}
 	if r.Intn(4) == 0 {
+		// two proofs for the invoked capability: a stranger's dead-end delegation of exactly that capability FIRST, the
+		// owner's genuine one second — the handler runs
+		far := int(ucan.Now()) + 1000000
+		owner, invoker, stranger := cast.Ed("twin_owner"), cast.Ed("twin_invoker"), cast.Ed("twin_stranger")
+		res := owner.DID.String()
+		dead := &TokSpec{Name: "twin_dead", Issuer: stranger, Audience: invoker, Exp: &far, Caps: []CapSpec{{Can: "store/add", With: res, Nb: Cav{}}}}
+		live := &TokSpec{Name: "twin_live", Issuer: owner, Audience: invoker, Exp: &far, Nonce: "live", Caps: []CapSpec{{Can: "store/add", With: res, Nb: Cav{}}}}
+		iv := &TokSpec{Name: "twin_inv", Issuer: invoker, Audience: service, Exp: &far, Caps: []CapSpec{{Can: "store/add", With: res, Nb: Cav{}}},
+			Proofs: []ProofRef{{Tok: "twin_dead", Inline: true}, {Tok: "twin_live", Inline: true}}}
+		cw.Specs = append(cw.Specs, dead, live, iv)
+		b.Invs = append(b.Invs, "twin_inv")
+	}
+	if r.Intn(4) == 0 {
 		// a chain rooted at the SERVICE's own key for a resource the service does not own: service -> holder -> invoker.
 		// Nothing the service issues roots a chain on somebody else's resource, on a default-option server either.
 		far := int(ucan.Now()) + 1000000
